@@ -8,12 +8,13 @@ import (
 )
 
 func main() {
-	all := []string{"rd-safe", "rd-safe-cf", "rd-unsafe", "rd-unsafe-cf", "rd-unsafe-cf-nomem", "rd-partial-ucf-nomem", "rd-partial-ucf-nomem-f1", "rd-late", "rd-safe+rev", "faulty/merge4", "faulty/merge4/settle", "faulty/safe3/sticky", "rd-late-ucf-nomem", "rd-nap-cf", "rd-keep2"}
+	all := []string{"rd-safe", "rd-safe-cf", "rd-unsafe", "rd-unsafe-cf", "rd-unsafe-cf-nomem", "rd-partial-ucf-nomem", "rd-partial-ucf-nomem-f1", "rd-late", "rd-safe+rev", "faulty/merge4", "faulty/merge4/settle", "faulty/safe3/sticky", "rd-late-ucf-nomem", "rd-nap-cf", "rd-keep2", "rd-late+rr"}
+	thor := append(append([]string{}, all...), "rd-safe+rr", "rd-unsafe+rr", "rd-keep2+rr", "rd-unsafe-cf+rev")
 	livecheck.Main(livecheck.Plan{
 		ID:     "C04",
 		Oracle: livecheck.Oracle{Immutable: true, Files: true},
 		Quick:  all, QuickBound: 1, QuickDeep: []string{"rd-unsafe-cf", "rd-partial-ucf-nomem-f1"}, QuickBudget: 80 * time.Second,
-		Thorough: all, ThorBound: 2, ThorBudget: 20 * time.Minute,
+		Thorough: thor, ThorBound: 2, ThorBudget: 20 * time.Minute,
 		Rule:        "every schedule within the deviation bound of 5 scenarios: one client applying 3 batches (update and delete hitting segments the held readers reference; eager file merges, in-memory merges in the unsafe/clients-first variants, retention 1 and 2 so that superseded files are removed) next to a thread that acquires 3 readers at different moments, keeps all of them open and re-observes every one after each of its steps and after the writer was closed; distinct_nontrivial = distinct (storage trace, observations) outcomes",
 		Explanation: "stateless exploration of the real writer/reader on the crashfs device (closed handles are poisoned with 0xDB so that a use after the last reference was dropped reads garbage and fails the comparison or the decoder). Observation = count, match-all with stored fields, field sort (document values), full dictionary scan, unscored conjunction and disjunction (bitmap paths), scored searches run twice (recycled postings iterators), lookups by id. Oracle: every observation equals the reader's first one; the first one equals the abstract index after j batches for some j between the batches returned and the batches called at acquisition",
 		Assumptions: []string{
